@@ -14,8 +14,6 @@ import (
 	"strings"
 	"time"
 
-	"github.com/rogpeppe/go-internal/cache"
-
 	"verif/harness/common"
 )
 
@@ -499,29 +497,24 @@ var allSubs = func() []int {
 	return l
 }()
 
-// reset empties the long-lived cache directory (creating it on first use).
-func (rn *runner) reset(subs []int) error {
-	if rn.c == nil {
-		dir, err := os.MkdirTemp(rn.work, "cache")
-		if err != nil {
-			return err
-		}
-		c, err := cache.Open(dir)
-		if err != nil {
-			return err
-		}
-		rn.dir, rn.c = dir, c
-		os.Mkdir(filepath.Join(rn.work, "targets"), 0o777)
-		return nil
+// reset empties the long-lived cache directory of a root class (creating it on first use).
+func (rn *runner) reset(root string, subs []int) (*rootState, error) {
+	fresh := rn.roots == nil || rn.roots[root] == nil
+	st, err := rn.rootFor(root)
+	if err != nil {
+		return nil, err
 	}
-	ents, _ := os.ReadDir(rn.dir)
+	if fresh {
+		return st, nil
+	}
+	ents, _ := os.ReadDir(st.dir)
 	for _, e := range ents {
 		if !isSubName(e.Name()) || !e.IsDir() {
-			os.RemoveAll(filepath.Join(rn.dir, e.Name()))
+			os.RemoveAll(filepath.Join(st.dir, e.Name()))
 		}
 	}
 	for _, i := range subs {
-		p := filepath.Join(rn.dir, subName(i))
+		p := filepath.Join(st.dir, subName(i))
 		ents, err := os.ReadDir(p)
 		if err != nil {
 			os.RemoveAll(p)
@@ -536,7 +529,8 @@ func (rn *runner) reset(subs []int) error {
 	for _, e := range tg {
 		os.Remove(filepath.Join(rn.work, "targets", e.Name()))
 	}
-	return nil
+	rn.restoreOutside(st)
+	return st, nil
 }
 
 func (rn *runner) runScenario(scn *Scenario) *Outcome {
@@ -546,12 +540,18 @@ func (rn *runner) runScenario(scn *Scenario) *Outcome {
 	if rn.n%100 == 0 {
 		subs = allSubs // now and then look at everything
 	}
-	if err := rn.reset(subs); err != nil {
+	st, err := rn.reset(scn.Root, subs)
+	if err != nil {
 		out.find("correspondence", "setup", "setup", err.Error())
 		return out
 	}
-	defer rn.reset(subs)
-	dir, c := rn.dir, rn.c
+	defer rn.reset(st.key, subs)
+	dir, c := st.dir, st.c
+	if st.key != "" {
+		out.Tags = append(out.Tags, "root:"+st.key)
+	} else if scn.Root != "" {
+		out.Tags = append(out.Tags, "root:unavailable(plain used)")
+	}
 	// the epoch is the real time
 	real0 := time.Now().UnixNano()
 	N := floorDiv(real0, 1e9)*1e9 + scn.Frac
@@ -773,9 +773,15 @@ func (rn *runner) runScenario(scn *Scenario) *Outcome {
 			evs = append(evs, fmt.Sprintf("S %d %d %d %s %s %d %s %s", u, ud, ia, common.Hex([]byte(na)), tagHex(idx), id, common.Hex([]byte(nd)), ddTag))
 		case "trim":
 			before := snapshot(dir, subs)
+			outside := st.outsideTag()
 			terr := c.Trim()
 			after := snapshot(dir, subs)
 			trimOracles(out, before, after, u, slack, lastUse, restored, terr)
+			if now := st.outsideTag(); now != outside {
+				// "never touches files that are not cache entries": least of all files of other directories
+				out.find("impl-violation", "outside-untouched", "outside-touched",
+					fmt.Sprintf("Trim on the cache directory %q (opened as %q) changed something OUTSIDE it: %s", st.dir, st.open, firstDiffLine(outside, now)))
+			}
 			if terr != nil {
 				implErrs = append(implErrs, '1')
 			} else {
